@@ -1045,6 +1045,56 @@ def side_by_side(harness_exe, model_exe, ops):
 
 
 # ------------------------------------------------------------------------------------------------
+# which model/implementation differences concern which property
+GATE_OPS = ("isUnique", "getMut", "getUnique", "tryUnique", "tryUnwrap", "makeMut", "makeUnique", "unwrapOrClone", "writeSlot", "uniqWrite")
+RAW_CONVS = ("intoRaw", "fromRaw", "intoRawOffset", "fromRawOffset", "thinIntoRaw", "thinFromRaw", "toDyn")
+
+
+def relevant(prop, ops, k, a, b):
+    """Does the first difference of a history (op index k; implementation line a, model line b) concern `prop`?
+    The sequential model is shared by the history properties; each property's theorems speak about certain
+    operations and observables, and a difference elsewhere (another property's subject) does not break ITS tie.
+    C01, C04 and C05 speak about every operation (lifetime, counts, allocator traffic), so everything concerns them.
+    Monitors are independent of this: they are evaluated on every implementation trace in full."""
+    if prop in ("C01", "C04", "C05", "C02"):
+        return True
+    f = ops[k].split()
+    oa, ob = parse_obs(cmp_canon(a)) if a and not a.startswith("<") else None, parse_obs(b) if b and not b.startswith("<") else None
+    if oa is None or ob is None:
+        return True
+    kinds, tys = set(), set()
+    for i in set(oa["slots"]) | set(ob["slots"]):
+        x, y = oa["slots"].get(i), ob["slots"].get(i)
+        if x != y:
+            for z in (x, y):
+                if z:
+                    kinds.add(z["kind"])
+                    tys.add(z["ty"])
+    # the slot the op works on (before the op: take it from whichever side still shows it, else from the op text)
+    panicky = oa["status"].startswith("panic") or ob["status"].startswith("panic") or (f[0] in ("makeMut", "makeUnique", "unwrapOrClone") and f[-1] == "1") \
+        or (f[0] == "cb" and "panic" in ops[k]) or (f[0] == "iter")
+    if prop == "C03":
+        return f[0] in GATE_OPS or (f[0] == "cb" and "thinWithArcMut" in ops[k]) or (f[0] == "conv" and len(f) > 2 and f[2] in ("shareable", "toDyn"))
+    if prop == "C06":
+        return f[0] in ("create", "iter") or (f[0] == "conv" and len(f) > 2 and f[2] in ("eraseHeader", "addHeader"))
+    if prop == "C07":
+        return panicky or f[0] == "cmp"
+    if prop == "C08":
+        return f[0] in ("makeMut", "makeUnique")
+    if prop == "C09":
+        return f[0] in ("tryUnwrap", "tryUnique", "unwrapOrClone", "intoInner") or (f[0] == "conv" and len(f) > 2 and f[2] == "shareable")
+    if prop == "C10":
+        return f[0] == "intoThin" or "thin" in ops[k].lower() or bool(kinds & {"thin", "rawThin"}) or "hwl" in tys
+    if prop == "C11":
+        return (f[0] == "conv" and len(f) > 2 and f[2] in RAW_CONVS) or bool(kinds & {"raw", "rawThin", "offset"}) or "rawOffset" in ops[k]
+    if prop == "C12":
+        return "union" in ops[k].lower() or bool(kinds & {"unionA", "unionB"})
+    if prop == "C15":
+        return "ninit" in ops[k] or f[0] == "writeSlot" or (f[0] == "conv" and len(f) > 2 and f[2] == "assumeInit") or bool(tys & {"mu", "muSlice", "hsMu"})
+    return True
+
+
+# ------------------------------------------------------------------------------------------------
 # zero-sized payload build: same histories, observations compared up to what a ZST can show
 
 SIZED_CTORS = ("new", "newB", "fromBox", "uniqueNew", "newUninit", "uniqueNewUninit", "default")
